@@ -471,6 +471,13 @@ def check(fx, rep, tier):
                 if recv[0] == "field" and recv[1][0] == "local" and recv[1][2] == "self":
                     rep.oblige(False, "R17.6", f"container-drops:{b['name']}:{c['method']}", F.loc(c["span"]), f"`Errors::{b['name']}` removes recorded errors with `{c['method']}`: an error that was raised and recorded is no longer listed in the result")
     rep.floor("R17.6", n_cont, 5, "methods of the error container scanned for removals")
+    # ... and nothing outside the container empties or replaces the buffer as a whole (mem::take on it, an assignment)
+    from .c06 import check_no_replacement
+
+    vm_adt = fx.adt("vm::VM")
+    err_tys = sorted({f["ty"] for f in vm_adt["variants"][0]["fields"] if (f.get("ty") or "").startswith(ERRS)}) if vm_adt and vm_adt.get("variants") else []
+    if rep.anchor("R17.6", bool(err_tys), "the error buffer field of the VM"):
+        check_no_replacement(fx, rep, "R17.6", tuple(err_tys), "errors recorded so far are no longer in the machine's buffer, so a later look at the same run (its result, a second call) reports success or an incomplete list", owner_suffix="VM")
     # gas exhaustion is recorded whenever the comparison holds: the test that guards the recording is the bare comparison of the
     # thread's gas with the limit (not conjoined with "the thread still has something to execute")
     advb = vm.advance
@@ -492,6 +499,9 @@ def check(fx, rep, tier):
     from .. import core
 
     core.import_rules(rep, fx, "C03", "R17.6", only_rules=("R03.4",), floor=3, what="gas accounting obligations (C03 R03.4) behind 'gas exhaustion is raised'")
+    # a bad jump target is an execution error only if the validator raises it: its clauses (constant only, full-width checked
+    # conversion, an instruction exists there, it is the JUMPDEST type) are C08's R08.1
+    core.import_rules(rep, fx, "C08", "R17.3", only_rules=("R08.1",), floor=4, what="validator obligations (C08 R08.1) behind 'every bad jump target is raised as an error'")
 
     return rep.finish(
         "Case analysis of every place an execution error is recorded in the VM's buffer (kinds reaching it x dependence on the permissive flag), "
